@@ -34,8 +34,8 @@ GEOM_STUBS = [
     ("crate::chess::movegen::tables::between::between", "stubs::s_between"),
 ]
 
-SQ = lambda s: (ord(s[0]) - 97) + 8 * (int(s[1]) - 1)
-SQN = lambda i: "abcdefgh"[i % 8] + str(i // 8 + 1)
+SQ = lambda s: 64 if s == "any" else (ord(s[0]) - 97) + 8 * (int(s[1]) - 1)
+SQN = lambda i: "any" if i >= 64 else "abcdefgh"[i % 8] + str(i // 8 + 1)
 
 
 def instance(gid, wtm, ksq, max_own, max_total):
